@@ -15,7 +15,7 @@ pub struct Flt { pub var: String, pub neq: bool, pub value: String }
 #[derive(Serialize, Deserialize, Clone, Debug)]
 pub enum UStep {
     InsertData(Vec<QP>), DeleteData(Vec<QP>),
-    InsertWhere { tpl: Vec<QP>, pat: Vec<QP>, #[serde(default)] flt: Option<Flt> }, DeleteTplWhere { tpl: Vec<QP>, pat: Vec<QP>, #[serde(default)] flt: Option<Flt> }, Modify { del: Vec<QP>, ins: Vec<QP>, pat: Vec<QP>, #[serde(default)] flt: Option<Flt> }, DeleteWhere { pat: Vec<QP> },
+    InsertWhere { tpl: Vec<QP>, pat: Vec<QP>, #[serde(default)] flt: Option<Flt>, #[serde(default)] alt: Option<Vec<QP>> }, DeleteTplWhere { tpl: Vec<QP>, pat: Vec<QP>, #[serde(default)] flt: Option<Flt>, #[serde(default)] alt: Option<Vec<QP>> }, Modify { del: Vec<QP>, ins: Vec<QP>, pat: Vec<QP>, #[serde(default)] flt: Option<Flt>, #[serde(default)] alt: Option<Vec<QP>> }, DeleteWhere { pat: Vec<QP> },
     Rejected(String), ApiAdd(String, String, String), ApiDeleteDefault(String, String, String), Select, Rebuild, OtherSessionBlank,
 }
 #[derive(Serialize, Deserialize, Clone, Debug)]
@@ -26,14 +26,17 @@ pub fn render(st: &UStep) -> Option<String> {
     Some(match st {
         UStep::InsertData(q) => format!("INSERT DATA {{ {} }}", block(q)),
         UStep::DeleteData(q) => format!("DELETE DATA {{ {} }}", block(q)),
-        UStep::InsertWhere { tpl, pat, flt } => format!("INSERT {{ {} }} WHERE {{ {}{} }}", block(tpl), block(pat), flt_txt(flt)),
-        UStep::DeleteTplWhere { tpl, pat, flt } => format!("DELETE {{ {} }} WHERE {{ {}{} }}", block(tpl), block(pat), flt_txt(flt)),
-        UStep::Modify { del, ins, pat, flt } => format!("DELETE {{ {} }} INSERT {{ {} }} WHERE {{ {}{} }}", block(del), block(ins), block(pat), flt_txt(flt)),
+        UStep::InsertWhere { tpl, pat, flt, alt } => format!("INSERT {{ {} }} WHERE {{ {}{} }}", block(tpl), where_txt(pat, alt), flt_txt(flt)),
+        UStep::DeleteTplWhere { tpl, pat, flt, alt } => format!("DELETE {{ {} }} WHERE {{ {}{} }}", block(tpl), where_txt(pat, alt), flt_txt(flt)),
+        UStep::Modify { del, ins, pat, flt, alt } => format!("DELETE {{ {} }} INSERT {{ {} }} WHERE {{ {}{} }}", block(del), block(ins), where_txt(pat, alt), flt_txt(flt)),
         UStep::DeleteWhere { pat } => format!("DELETE WHERE {{ {} }}", block(pat)),
         UStep::Rejected(t) => t.clone(),
         _ => return None,
     })
 }
+fn where_txt(pat: &[QP], alt: &Option<Vec<QP>>) -> String { match alt { None => block(pat), Some(a) => format!(" {{ {} }} UNION {{ {} }} ", block(pat), block(a)) } }
+/// WHERE solutions as a multiset: UNION concatenates the solutions of its branches (the same solution may occur twice)
+fn where_sols(m: &Store, pat: &[QP], alt: &Option<Vec<QP>>) -> Vec<qm::Binding> { let mut s = qm::matchq(m, pat); if let Some(a) = alt { s.extend(qm::matchq(m, a)); } s }
 fn flt_txt(f: &Option<Flt>) -> String { match f { Some(f) => format!(" FILTER (?{} {} <{}>) ", f.var, if f.neq { "!=" } else { "=" }, f.value), None => String::new() } }
 /// group-scoped FILTER over a variable of the pattern: an unbound variable is an error, i.e. the solution is dropped
 fn flt_apply(sols: Vec<qm::Binding>, f: &Option<Flt>) -> Vec<qm::Binding> { match f { None => sols, Some(f) => sols.into_iter().filter(|b| match b.get(&f.var) { Some(v) => (*v == f.value) != f.neq, None => false }).collect() } }
@@ -61,6 +64,7 @@ impl Vocab {
         let gsel = match r.below(4) { 0 => G::Named(self.g(r)), 1 => G::Var("g".into()), _ => G::Default };
         (0..k).map(|i| QP { s: if r.chance(1, 4) { T::Iri(self.n(r)) } else { T::Var(vars[i % 3].into()) }, p: if r.chance(1, 6) { T::Var("pp".into()) } else { T::Iri(self.p(r)) }, o: if r.chance(1, 4) { self.obj(r) } else { T::Var(vars[(i + 1) % 3].into()) }, g: if r.chance(1, 6) { self.gr(r) } else { gsel.clone() } }).collect()
     }
+    pub fn alt(&self, r: &mut Rng, pat: &[QP]) -> Option<Vec<QP>> { if !r.chance(1, 5) { return None; } if r.chance(1, 2) { Some(pat.to_vec()) } else { Some(self.pattern(r)) } }
     pub fn filter(&self, r: &mut Rng, pat: &[QP]) -> Option<Flt> {
         if !r.chance(1, 4) { return None; }
         let vars: Vec<String> = pat.iter().flat_map(|q| [&q.s, &q.o]).filter_map(|t| if let T::Var(v) = t { Some(v.clone()) } else { None }).collect();
@@ -97,9 +101,9 @@ pub fn gen_steps(r: &mut Rng, cfg: &mut Rng, n: usize) -> Vec<UStep> {
         steps.push(match r.weighted(&[5, 2, 3, 2, 3, 2, w_rej, w_api, w_api, 1, 1, 1]) {
             0 => { let k = 1 + r.usize(4); UStep::InsertData(v.ground(r, k, true)) }
             1 => { let k = 1 + r.usize(2); UStep::DeleteData(v.ground(r, k, false)) }
-            2 => { let pat = v.pattern(r); let flt = v.filter(r, &pat); UStep::InsertWhere { tpl: v.template(r, true), pat, flt } }
-            3 => { let pat = v.pattern(r); let flt = v.filter(r, &pat); UStep::DeleteTplWhere { tpl: v.template(r, false), pat, flt } }
-            4 => { if r.chance(1, 4) { let a = T::Var("a".into()); let b = T::Var("b".into()); let p = T::Iri(v.p(r)); UStep::Modify { del: vec![QP { s: a.clone(), p: p.clone(), o: b.clone(), g: G::Default }], ins: vec![QP { s: b.clone(), p: p.clone(), o: a.clone(), g: G::Default }], pat: vec![QP { s: a, p, o: b, g: G::Default }], flt: None } } else { let pat = v.pattern(r); let flt = v.filter(r, &pat); UStep::Modify { del: v.template(r, false), ins: v.template(r, true), pat, flt } } }
+            2 => { let pat = v.pattern(r); let flt = v.filter(r, &pat); let alt = v.alt(r, &pat); UStep::InsertWhere { tpl: v.template(r, true), pat, flt, alt } }
+            3 => { let pat = v.pattern(r); let flt = v.filter(r, &pat); let alt = v.alt(r, &pat); UStep::DeleteTplWhere { tpl: v.template(r, false), pat, flt, alt } }
+            4 => { if r.chance(1, 4) { let a = T::Var("a".into()); let b = T::Var("b".into()); let p = T::Iri(v.p(r)); UStep::Modify { del: vec![QP { s: a.clone(), p: p.clone(), o: b.clone(), g: G::Default }], ins: vec![QP { s: b.clone(), p: p.clone(), o: a.clone(), g: G::Default }], pat: vec![QP { s: a, p, o: b, g: G::Default }], flt: None, alt: None } } else { let pat = v.pattern(r); let flt = v.filter(r, &pat); let alt = v.alt(r, &pat); UStep::Modify { del: v.template(r, false), ins: v.template(r, true), pat, flt, alt } } }
             5 => UStep::DeleteWhere { pat: v.pattern(r) },
             6 => UStep::Rejected(r.pick(&REJECTED).to_string()),
             7 => UStep::ApiAdd(v.n(r), v.p(r), v.n(r)),
@@ -125,9 +129,9 @@ pub fn step(db: &mut SparqlDatabase, other: &mut SparqlDatabase, m: &mut Store, 
     let expect: Option<(BTreeSet<Q>, BTreeSet<Q>)> = match st {
         UStep::InsertData(q) => Some((BTreeSet::new(), qm::inst(q, &[qm::Binding::new()], true, bnctr))),
         UStep::DeleteData(q) => Some((qm::inst(q, &[qm::Binding::new()], false, bnctr), BTreeSet::new())),
-        UStep::InsertWhere { tpl, pat, flt } => { let sols = flt_apply(qm::matchq(m, pat), flt); Some((BTreeSet::new(), qm::inst(tpl, &sols, true, bnctr))) }
-        UStep::DeleteTplWhere { tpl, pat, flt } => { let sols = flt_apply(qm::matchq(m, pat), flt); Some((qm::inst(tpl, &sols, false, bnctr), BTreeSet::new())) }
-        UStep::Modify { del, ins, pat, flt } => { let sols = flt_apply(qm::matchq(m, pat), flt); Some((qm::inst(del, &sols, false, bnctr), qm::inst(ins, &sols, true, bnctr))) }
+        UStep::InsertWhere { tpl, pat, flt, alt } => { let sols = flt_apply(where_sols(m, pat, alt), flt); if alt.is_some() { let d: BTreeSet<&qm::Binding> = sols.iter().collect(); if d.len() < sols.len() { ctx.hit("probe.where_returned_the_same_solution_twice"); } } Some((BTreeSet::new(), qm::inst(tpl, &sols, true, bnctr))) }
+        UStep::DeleteTplWhere { tpl, pat, flt, alt } => { let sols = flt_apply(where_sols(m, pat, alt), flt); Some((qm::inst(tpl, &sols, false, bnctr), BTreeSet::new())) }
+        UStep::Modify { del, ins, pat, flt, alt } => { let sols = flt_apply(where_sols(m, pat, alt), flt); Some((qm::inst(del, &sols, false, bnctr), qm::inst(ins, &sols, true, bnctr))) }
         UStep::DeleteWhere { pat } => { let sols = qm::matchq(m, pat); Some((qm::inst(pat, &sols, false, bnctr), BTreeSet::new())) }
         _ => None,
     };
@@ -198,9 +202,9 @@ impl Prop for C03 {
             let mut push = |ns: UStep| { let mut s = c.steps.clone(); s[i] = ns; out.push(UpdCase { steps: s, ..c.clone() }); };
             match st {
                 UStep::InsertData(q) if q.len() > 1 => for x in shrink_vec(q) { if !x.is_empty() { push(UStep::InsertData(x)); } },
-                UStep::InsertWhere { tpl, pat, flt } => { for x in shrink_vec(tpl) { if !x.is_empty() { push(UStep::InsertWhere { tpl: x, pat: pat.clone(), flt: flt.clone() }); } } for x in shrink_vec(pat) { if !x.is_empty() { push(UStep::InsertWhere { tpl: tpl.clone(), pat: x, flt: None }); } } if flt.is_some() { push(UStep::InsertWhere { tpl: tpl.clone(), pat: pat.clone(), flt: None }); } }
-                UStep::DeleteTplWhere { tpl, pat, flt } => { for x in shrink_vec(tpl) { if !x.is_empty() { push(UStep::DeleteTplWhere { tpl: x, pat: pat.clone(), flt: flt.clone() }); } } for x in shrink_vec(pat) { if !x.is_empty() { push(UStep::DeleteTplWhere { tpl: tpl.clone(), pat: x, flt: None }); } } if flt.is_some() { push(UStep::DeleteTplWhere { tpl: tpl.clone(), pat: pat.clone(), flt: None }); } }
-                UStep::Modify { del, ins, pat, flt } => { for x in shrink_vec(del) { push(UStep::Modify { del: x, ins: ins.clone(), pat: pat.clone(), flt: flt.clone() }); } for x in shrink_vec(ins) { push(UStep::Modify { del: del.clone(), ins: x, pat: pat.clone(), flt: flt.clone() }); } for x in shrink_vec(pat) { if !x.is_empty() { push(UStep::Modify { del: del.clone(), ins: ins.clone(), pat: x, flt: None }); } } if flt.is_some() { push(UStep::Modify { del: del.clone(), ins: ins.clone(), pat: pat.clone(), flt: None }); } }
+                UStep::InsertWhere { tpl, pat, flt, alt } => { for x in shrink_vec(tpl) { if !x.is_empty() { push(UStep::InsertWhere { tpl: x, pat: pat.clone(), flt: flt.clone(), alt: alt.clone() }); } } for x in shrink_vec(pat) { if !x.is_empty() { push(UStep::InsertWhere { tpl: tpl.clone(), pat: x, flt: None, alt: alt.clone() }); } } if flt.is_some() { push(UStep::InsertWhere { tpl: tpl.clone(), pat: pat.clone(), flt: None, alt: alt.clone() }); } if alt.is_some() { push(UStep::InsertWhere { tpl: tpl.clone(), pat: pat.clone(), flt: flt.clone(), alt: None }); } }
+                UStep::DeleteTplWhere { tpl, pat, flt, alt } => { for x in shrink_vec(tpl) { if !x.is_empty() { push(UStep::DeleteTplWhere { tpl: x, pat: pat.clone(), flt: flt.clone(), alt: alt.clone() }); } } for x in shrink_vec(pat) { if !x.is_empty() { push(UStep::DeleteTplWhere { tpl: tpl.clone(), pat: x, flt: None, alt: alt.clone() }); } } if flt.is_some() { push(UStep::DeleteTplWhere { tpl: tpl.clone(), pat: pat.clone(), flt: None, alt: alt.clone() }); } if alt.is_some() { push(UStep::DeleteTplWhere { tpl: tpl.clone(), pat: pat.clone(), flt: flt.clone(), alt: None }); } }
+                UStep::Modify { del, ins, pat, flt, alt } => { for x in shrink_vec(del) { push(UStep::Modify { del: x, ins: ins.clone(), pat: pat.clone(), flt: flt.clone(), alt: alt.clone() }); } for x in shrink_vec(ins) { push(UStep::Modify { del: del.clone(), ins: x, pat: pat.clone(), flt: flt.clone(), alt: alt.clone() }); } for x in shrink_vec(pat) { if !x.is_empty() { push(UStep::Modify { del: del.clone(), ins: ins.clone(), pat: x, flt: None, alt: alt.clone() }); } } if flt.is_some() { push(UStep::Modify { del: del.clone(), ins: ins.clone(), pat: pat.clone(), flt: None, alt: alt.clone() }); } if alt.is_some() { push(UStep::Modify { del: del.clone(), ins: ins.clone(), pat: pat.clone(), flt: flt.clone(), alt: None }); } }
                 UStep::DeleteWhere { pat } if pat.len() > 1 => for x in shrink_vec(pat) { if !x.is_empty() { push(UStep::DeleteWhere { pat: x }); } },
                 _ => {}
             }
